@@ -1003,11 +1003,14 @@ theorem AllSame.mem_right {a b : List Msg} (h : AllSame a b) : ∀ m' ∈ b, ∃
     · obtain ⟨y, hy, hs⟩ := ih x h
       exact ⟨y, by simp [hy], hs⟩
 
-/-- **What the runner's `\[img-(\d+)\]` finds in a retained message is exactly what chatPrompt wrote**
+/-- **What the runner's `\[img-(\d+)\]` finds in a retained message is exactly what chatPrompt wrote — partial**:
+    guard `cleanPieces` (decidable: no `[` of the literal text starts a prefix of `[img-` that completes or runs to
+    the end of the text).  What is missing: text that itself spells `[img-N]` — finding F5, witnesses
+    `F5_literal_tag_duplicates_image` / `F5_literal_tag_invalid_index` below: the full statement is false. 
     (discharges, for text that is `safeText`, the link between the `tag` pieces the theorems above count and
     the BYTES the runner scans): for every retained message the matches of the rendered content are its tag
     pieces in order, with their numbers; and every one of them resolves to the image at that position. -/
-theorem runner_scan_is_tags (h : chatPrompt cfg cost bad msgs = .ok q n sys ret imgs)
+theorem runner_scan_is_tags_partial (h : chatPrompt cfg cost bad msgs = .ok q n sys ret imgs)
     (hclean : ∀ m ∈ msgs, cleanPieces m.content = true)
     (hno : ∀ m ∈ msgs, ∀ k, countTag k m.content = 0) :
     ∀ m' ∈ ret, scanTags (renderPieces m'.content) 0 = tagsOf m'.content ∧
@@ -1087,7 +1090,7 @@ theorem inplace_scan (tv : TVar) (l : List PMsg) (tools : ToolsV) (hclean : ∀ 
     runner's `\[img-(\d+)\]` in the prompt are the tags of the kept system messages and of the retained
     messages in order; every index `k < #images` is matched exactly once and no other number is; every
     match resolves in the runner's lookup. -/
-theorem prompt_tags_inplace {tv : TVar} {mode : Nat} {tf : Option Nat} {p : Bytes} {tools : ToolsV}
+theorem prompt_tags_inplace_partial {tv : TVar} {mode : Nat} {tf : Option Nat} {p : Bytes} {tools : ToolsV}
     (h : chatPromptT cfg tv tInPlace mode msgs tf tools = .ok q n sys ret imgs p)
     (hv : cfg.fixed = true)
     (hclean : ∀ m ∈ msgs, cleanPieces m.content = true)
@@ -1289,5 +1292,66 @@ example :
       = [⟨.user, txt bHi, []⟩, ⟨.user, [], [⟨1, true⟩]⟩, ⟨.user, [], [⟨2, true⟩]⟩, ⟨.user, txt bSYS, []⟩] ∧
     chatPrompt ⟨true, true, 1, 100⟩ (fun _ => 1) (fun _ => false)
       [⟨.user, txt bHi, [⟨1, true⟩, ⟨2, true⟩]⟩] = .errTooMany := by decide
+
+
+/-! ### finding F5: a literal `[img-N]` in a message's text -/
+
+/-- "see [img-0]" -/
+def bSeeTag0 : Bytes := [115, 101, 101, 32, 91, 105, 109, 103, 45, 48, 93]
+/-- "[img-5]" -/
+def bTag5 : Bytes := [91, 105, 109, 103, 45, 53, 93]
+
+def imgsOf : OutcomeT → List ImgOut
+  | .ok _ _ _ _ imgs _ => imgs
+  | _ => []
+
+def promptOf : OutcomeT → Bytes
+  | .ok _ _ _ _ _ p => p
+  | _ => []
+
+/-- **Witness of F5 (a)**: `[user "see [img-0]" + one image]`, in-place template, everything fits.  The prompt is
+    `[user|[img-0]see [img-0]]`: the tag of the single returned image occurs TWICE (once written by chatPrompt,
+    once typed by the user), so the runner's scan yields `[0, 0]` and the image is embedded twice — "each image
+    exactly once in the prompt" is false for this conversation.  The text is not `cleanPieces`. -/
+theorem F5_literal_tag_duplicates_image :
+    let conv : List Msg := [⟨.user, splitImg bSeeTag0, [⟨1, true⟩]⟩]
+    let out := chatPromptT ⟨true, false, 2, 2048⟩ ⟨2, true⟩ tInPlace 0 conv
+    imgsOf out = [⟨0, 1, false⟩] ∧
+    promptOf out = [91, 117, 115, 101, 114, 124] ++ [91, 105, 109, 103, 45, 48, 93] ++ bSeeTag0 ++ [93] ∧
+    scanOf out = [0, 0] ∧
+    (resolveTags (imgsOf out) (scanOf out)).map (·.length) = some 2 ∧
+    (conv.all fun m => cleanPieces m.content) = false ∧
+    (∀ m ∈ conv, ∀ k, countTag k m.content = 0) := by
+  refine ⟨by decide, by decide, by decide, by decide, by decide, ?_⟩
+  intro m hm k
+  simp only [List.mem_cons, List.not_mem_nil, or_false] at hm
+  subst hm
+  have : splitImg bSeeTag0 = [Piece.lit bSeeTag0] := by decide
+  simp [this, countTag]
+
+/-- **Witness of F5 (b)**: `[user "[img-5]"]` without any image: the prompt mentions image 5, no image is returned,
+    and the runner's lookup answers "invalid image index" — the request fails because of six characters of text. -/
+theorem F5_literal_tag_invalid_index :
+    let out := chatPromptT ⟨true, false, 2, 2048⟩ ⟨2, true⟩ tInPlace 0 [⟨.user, splitImg bTag5, []⟩]
+    imgsOf out = [] ∧ scanOf out = [5] ∧ resolveTags (imgsOf out) (scanOf out) = none := by
+  decide
+
+
+/-! ### what the walk guarantees without a monotone cost -/
+
+/-- **The walk stops at the FIRST candidate that is over budget; with a cost that is not monotone this is not the
+    longest run that fits.**  Four messages, measured totals `[3, 9, 2]` for the runs starting at 0, 1, 2, context
+    length 5: the run `[2:]` fits (2), the run `[1:]` does not (9) — the walk stops and keeps `[2:]` although the whole
+    conversation `[0:]` would fit (3).  What holds for EVERY cost is `retained_first_failure` / `cut_is_spec`;
+    "longest run that fits" holds exactly when the measured total is monotone in the run (`retained_longest_fitting`),
+    which `total_antitone_inplace_bytes` proves for the in-place template with the byte tokenizer and which the real
+    tokenizers / collate's merging do not guarantee (the driver counts such conversations: `spec_nonmonotone_cost`). -/
+theorem first_failure_not_longest_nonmonotone :
+    let conv : List Msg := [⟨.user, txt bHi, []⟩, ⟨.assistant, txt bLong, []⟩, ⟨.user, txt bHi, []⟩, ⟨.assistant, txt bHi, []⟩]
+    let cfg : Cfg := ⟨true, false, 0, 5⟩
+    let cost : Nat → Nat := fun i => [3, 9, 2].getD i 0
+    (match chatPrompt cfg cost (fun _ => false) conv with | .ok _ n _ _ _ => some n | _ => none) = some 2 ∧
+    fits cfg cost conv 0 = true ∧ fits cfg cost conv 1 = false ∧ fits cfg cost conv 2 = true := by
+  decide
 
 end OllamaVerif.C19
